@@ -41,6 +41,20 @@ RULES = {
         replace='crate::hoist::extend_be_bytes(&mut data, slice)',
         why='FlatMap has no vstd model',
         assumes='appends the 32-byte big-endian encodings of the slice elements, in order'),
+    # ---- fri/layer.rs
+    'H_drain_query': dict(
+        kind='H', pattern='queries.drain(0..1).collect()', replace='crate::hoist::drain_first(queries)',
+        why='Drain has no vstd model', assumes='drain(0..1).collect() removes and returns the first element; panics if empty (precondition)'),
+    'H_drain_witness': dict(
+        kind='H', pattern='sibling_witness.drain(0..1).collect()', replace='crate::hoist::drain_first(sibling_witness)',
+        why='Drain has no vstd model', assumes='drain(0..1).collect() removes and returns the first element; panics if empty (precondition)'),
+    'H_extend_iter_coset': dict(
+        kind='H', pattern='verify_y_values.extend_x(coset_elements.iter())', replace='crate::hoist::extend_from_iter(&mut verify_y_values, &coset_elements)',
+        why='Extend<&T> from slice::Iter has no vstd model', assumes='appends copies of the elements in order'),
+    # ---- fri/fri.rs
+    'R1_map_err_last_layer': dict(
+        kind='R1', pattern='.map_err(|_| Error::LastLayerVerificationError)', replace='.map_err(|_e| Error::LastLayerVerificationError)',
+        why='Verus closure parameters must be plain identifiers', assumes='no assumption: `_` and an unused named parameter bind the same way'),
     # ---- fri/first_layer.rs
     'R2_enumerate_queries': dict(
         kind='R2',
